@@ -57,29 +57,49 @@ class Tracer:
                 tr._after()
 
         class TracedFile:
+            """a text file opened for writing, with the buffering of the real one: data reaches the file when the buffer
+            (8 KiB) overflows and when the file is closed; a crash loses what is still buffered"""
+            BUF = 8192
+
             def __init__(self, path):
                 self.path = path
                 self.fd = os.open(path, os.O_WRONLY | os.O_CREAT | os.O_TRUNC, 0o644)
+                self.buf = b''
+                self.open = True
 
-            def write(self, text):
-                data = text.encode('utf-8')
+            def _flush(self, upto=None):
+                data, self.buf = (self.buf, b'') if upto is None else (self.buf[:upto], self.buf[upto:])
+                if not data:
+                    return
                 k = tr._point(('write', self.path, len(data)))
                 if k is not None:
                     os.write(self.fd, data[:k])
                     os.close(self.fd)
+                    self.open = False
                     raise CrashNow()
                 os.write(self.fd, data)
                 tr._after()
+
+            def write(self, text):
+                self.buf += text.encode('utf-8')
+                while len(self.buf) > self.BUF:
+                    self._flush(self.BUF)
                 return len(text)
 
             def __enter__(self):
                 return self
 
-            def __exit__(self, *a):
-                try:
+            def __exit__(self, et, ev, tb):
+                if et is not None and issubclass(et, CrashNow):
+                    # the process is gone: nothing buffered is written
+                    if self.open:
+                        os.close(self.fd)
+                        self.open = False
+                    return False
+                self._flush()
+                if self.open:
                     os.close(self.fd)
-                except OSError:
-                    pass
+                    self.open = False
                 return False
 
         def traced_open(path, mode='r', *a, **kw):
@@ -132,6 +152,7 @@ def pd_case(rng, n_ops):
         use_file = rng.random() < 0.9
         pd = cm.PersistingDict(d if use_file else '', 'f.json')
         ops, tags = [], []
+        last_mut = None
         for _ in range(n_ops):
             k = str(rng.randrange(4))
             r = rng.randrange(10)
@@ -147,16 +168,23 @@ def pd_case(rng, n_ops):
                 elif r < 8:
                     ops.append('p:%s' % ord(k))
                     pd.pop(k, None)
+                elif r == 8 and last_mut is not None and last_mut[0] in pd:
+                    # the idiom of the correlator: assign the changed entry back
+                    k = last_mut[0]
+                    ops.append('s:%s:%d' % (ord(k), pd[k][0]))
+                    pd[k] = pd[k]
                 else:
                     v = rng.randrange(100)
                     ops.append('m:%s:%d' % (ord(k), v))
                     if k in pd:
                         pd[k][0] = v        # a change made in place to a stored value
+                        last_mut = (k, v)
                 kinds = [c[0] for c in tr.calls]
                 if not kinds:
                     tags.append('-')
-                elif kinds == ['open', 'write', 'replace'] and tr.calls[0][1] == tr.calls[2][1] \
-                        and tr.calls[2][2] == os.path.join(d, 'f.json') and tr.calls[0][1] != tr.calls[2][2]:
+                elif len(kinds) >= 3 and kinds[0] == 'open' and kinds[-1] == 'replace' and set(kinds[1:-1]) == {'write'} \
+                        and tr.calls[0][1] == tr.calls[-1][1] and tr.calls[-1][2] == os.path.join(d, 'f.json') \
+                        and tr.calls[0][1] != tr.calls[-1][2]:
                     tags.append('S')
                 else:
                     tags.append('?' + '+'.join(kinds))
@@ -204,7 +232,7 @@ def gen_history(rng):
     later = []
     for mi, segs in msgs:
         for s in segs:
-            status = rng.choice((0, 0, 0, 0x58, 8))
+            status = rng.choice((0, 0, 0, 0x58, 8, 'nack', 'nack'))
             mid = 'm%ds%d' % (mi, s)
             later.append(('resp', s, status, mid))
             if status == 0 and rng.random() < 0.8:
@@ -246,6 +274,8 @@ def apply(sim, op):
         return sim.op_put(now, sim.submit(seq, log=log, extra=log + 50, sar=sar))[1]
     if k == 'resp':
         _, now, seq, status, mid = op
+        if status == 'nack':
+            return sim.op_hresp(now, sim.resp('nack', seq, 3))[1]
         return sim.op_hresp(now, sim.resp('submitresp', seq, status, mid if status == 0 else ''))[1]
     if k == 'rcpt':
         _, now, mid, err = op
